@@ -47,6 +47,8 @@ func c11Exec(cs c11Case) (*fw.Violation, *harness.Client) {
 		return mk("harness", "setup", "requests not all sent on one connection"), h
 	}
 	srv := h.Conns[0]
+	// ids as the client chose them (any fresh odd increasing id is legal)
+	sid := func(i int) uint32 { return srv.Order[i] }
 	respFields := func(i int) []ref.Field {
 		return []ref.Field{{Name: ":status", Value: "200"}, {Name: "x-tag", Value: fmt.Sprint("r", i)}}
 	}
@@ -54,7 +56,7 @@ func c11Exec(cs c11Case) (*fw.Violation, *harness.Client) {
 	sentHdr := make([]bool, cs.N)
 	sentPart := make([]bool, cs.N)
 	for i, p := range cs.Progress {
-		id := uint32(2*i + 1)
+		id := sid(i)
 		if p >= 1 {
 			h.Send(0, srv.RespFrames(id, respFields(i), nil, nil, [][]byte{[]byte(body(i))}, -1)[0])
 			sentHdr[i] = true
@@ -67,9 +69,9 @@ func c11Exec(cs c11Case) (*fw.Violation, *harness.Client) {
 	last := uint32(0)
 	switch {
 	case cs.Last >= cs.N:
-		last = uint32(2*cs.N + 1)
+		last = sid(cs.N-1) + 2
 	case cs.Last >= 0:
-		last = uint32(2*cs.Last + 1)
+		last = sid(cs.Last)
 	}
 	if cs.Graceful {
 		h.Send(0, peer.GoAway(1<<31-1, 0, "shutting down"))
@@ -81,7 +83,7 @@ func c11Exec(cs c11Case) (*fw.Violation, *harness.Client) {
 	}
 	h.Send(0, peer.GoAway(last, cs.Code, "bye"))
 	shape := fmt.Sprintf("n=%d last=%s code=%s", cs.N, map[bool]string{true: "0", false: map[bool]string{true: "above-all", false: "in-flight-id"}[cs.Last >= cs.N]}[cs.Last < 0], peer.CodeName(cs.Code))
-	disclaimed := func(i int) bool { return uint32(2*i+1) > last }
+	disclaimed := func(i int) bool { return sid(i) > last }
 	// (4) requests above last-stream-id are resolved now, with an error
 	for i, c := range calls {
 		if !disclaimed(i) {
@@ -99,10 +101,10 @@ func c11Exec(cs c11Case) (*fw.Violation, *harness.Client) {
 			continue // disclaimed, so the client was free to send it again on a new connection
 		}
 		if !c.Done {
-			return mk("disclaimed-request-left-waiting", shape+fmt.Sprintf(" progress=%d", cs.Progress[i]), fmt.Sprintf("request r%d on stream %d is above last-stream-id %d: after the GOAWAY was processed its caller is still waiting", i, 2*i+1, last)), h
+			return mk("disclaimed-request-left-waiting", shape+fmt.Sprintf(" progress=%d", cs.Progress[i]), fmt.Sprintf("request r%d on stream %d is above last-stream-id %d: after the GOAWAY was processed its caller is still waiting", i, sid(i), last)), h
 		}
 		if c.Err == nil {
-			return mk("disclaimed-request-succeeded", shape, fmt.Sprintf("request r%d on stream %d (above last-stream-id %d) was reported successful", i, 2*i+1, last)), h
+			return mk("disclaimed-request-succeeded", shape, fmt.Sprintf("request r%d on stream %d (above last-stream-id %d) was reported successful", i, sid(i), last)), h
 		}
 	}
 	finished := make([]bool, cs.N)
@@ -118,7 +120,7 @@ func c11Exec(cs c11Case) (*fw.Violation, *harness.Client) {
 			if a >= cs.N || closed || finished[a] || refused[a] || disclaimed(a) {
 				continue // a server does not answer what it has disclaimed
 			}
-			id := uint32(2*a + 1)
+			id := sid(a)
 			var fs []peer.Frame
 			if !sentHdr[a] {
 				fs = append(fs, srv.RespFrames(id, respFields(a), nil, nil, [][]byte{[]byte(body(a))}, -1)[0])
@@ -135,7 +137,7 @@ func c11Exec(cs c11Case) (*fw.Violation, *harness.Client) {
 			if a >= cs.N || closed || finished[a] || refused[a] || sentHdr[a] {
 				continue
 			}
-			h.Send(0, peer.RstStream(uint32(2*a+1), 7))
+			h.Send(0, peer.RstStream(sid(a), 7))
 			refused[a] = true
 		case ev == "new-request":
 			newCalls = append(newCalls, h.Go(harness.ReqSpec{Tag: fmt.Sprint("new", len(newCalls)), Method: "GET", Path: "/new", Headers: [][2]string{{"X-Tag", "new"}}}))
@@ -168,7 +170,7 @@ func c11Exec(cs c11Case) (*fw.Violation, *harness.Client) {
 			return mk("request-sent-twice", shape, fmt.Sprintf("request %s reached servers %d times although the server never disclaimed it", tag, count[tag])), h
 		}
 		if c.Done && c.Retry && !safe {
-			return mk("retryable-although-possibly-processed", shape+fmt.Sprintf(" progress=%d", cs.Progress[i]), fmt.Sprintf("request %s (stream %d <= last-stream-id %d, not refused) was reported retryable: err=%v", tag, 2*i+1, last, c.Err)), h
+			return mk("retryable-although-possibly-processed", shape+fmt.Sprintf(" progress=%d", cs.Progress[i]), fmt.Sprintf("request %s (stream %d <= last-stream-id %d, not refused) was reported retryable: err=%v", tag, sid(i), last, c.Err)), h
 		}
 		if c.Done && c.Err != nil && !safe && http2.VerifRetryable(c.Err) {
 			return mk("retryable-although-possibly-processed", shape+" classification", fmt.Sprintf("request %s: error %v is classified retryable", tag, c.Err)), h
@@ -176,10 +178,10 @@ func c11Exec(cs c11Case) (*fw.Violation, *harness.Client) {
 		// (5) promised and answered => that answer
 		if !disclaimed(i) && finished[i] {
 			if !c.Done {
-				return mk("promised-request-not-completed", shape+fmt.Sprintf(" progress=%d", cs.Progress[i]), fmt.Sprintf("request %s (stream %d <= last-stream-id %d) was answered in full by the server but its caller is still waiting", tag, 2*i+1, last)), h
+				return mk("promised-request-not-completed", shape+fmt.Sprintf(" progress=%d", cs.Progress[i]), fmt.Sprintf("request %s (stream %d <= last-stream-id %d) was answered in full by the server but its caller is still waiting", tag, sid(i), last)), h
 			}
 			if c.Err != nil || c.Status != 200 || string(c.Body) != body(i) {
-				return mk("promised-request-not-completed", shape+fmt.Sprintf(" progress=%d", cs.Progress[i]), fmt.Sprintf("request %s (stream %d <= last-stream-id %d) was answered in full (200, %q) but the caller got status=%d body=%q err=%v", tag, 2*i+1, last, body(i), c.Status, c.Body, c.Err)), h
+				return mk("promised-request-not-completed", shape+fmt.Sprintf(" progress=%d", cs.Progress[i]), fmt.Sprintf("request %s (stream %d <= last-stream-id %d) was answered in full (200, %q) but the caller got status=%d body=%q err=%v", tag, sid(i), last, body(i), c.Status, c.Body, c.Err)), h
 			}
 		}
 		if c.Done && c.Err == nil && !finished[i] {
